@@ -160,6 +160,16 @@ CHECKS = {
          "the q->0 limit are outside solver reach and stated as such.",
     design="3/C14", engine="symx+llsym",
     technique="symbolic execution of the LLVM IR of each model's Fq/form_volume/shell_volume/radius_effective with library special functions uninterpreted; z3 QF_NRA identities (shared subterms generalised, UF abstracted); C01 harness for the accumulator clause"),
+ "C11": dict(
+    text="Bounded, solver-decided 2-safety: for 10 compiled, 5 python and 1 synthetic python model, 6 product/mixture expressions, SasviewModel, DirectModel and the Iq/Iqxy "
+         "helpers, with mono / one dispersed parameter / empty mesh / magnetic on-off in 1-D and 2-D, the result of a request (incl. lazy intermediate results and refusals) "
+         "is proved equal for every pair of retained-state contents and every enumerated prefix of earlier operations, and every caller-owned dict, q array, mesh, value "
+         "vector and CallDetails is proved equal to its pre-call snapshot. All parameter values, weights, q, cutoff and all retained state (np.empty buffers, cached vectors, "
+         "lazy results, template cache entry) are symbolic; no invariant on the state is assumed, so histories of any length are covered within the enumerated structure. "
+         "Bit-identity across processes and rounding are not modelled.",
+    design="3/C11", engine="symx+llsym",
+    technique="2-safety by symbolic execution of the real Python (direct_model, details, kerneldll, kernelpy, product, mixture, sasview_model, generate.load_template) on z3 proxies with compiled kernels served by symbolic execution of their LLVM IR; retained buffers are fresh symbols; O1 renames all non-input symbols of one path and z3 decides that the pair of path conditions implies equal results; O2 is a z3 equality of before/after snapshots through a recording dict; replay on the real DLLs (fresh vs polluted objects bit for bit)",
+    note="Structure (models, mesh shapes, prefix operations, q count) is enumerated; leaf interiors, C-side writes into const buffers, Gxi/SESANS, slit resolution, bumps, GPU kernels and module/template reload semantics (C17) are outside. Replays of entry points that allocate their kernel inside the call fix the content of np.empty memory to two chosen patterns."),
 }
 
 NOT_YET = "check not built yet in this round (planned in DESIGN.md section 3); not claimed"
